@@ -22,7 +22,7 @@ for pid in all_ids:
             "text": cfg.get("level_text", "Deductive proof (Verus/Z3, unbounded) that the real functions in the property's cone, extracted mechanically from /repo on every run, meet contracts from which the property follows; fixed-size byte-level leaves by Kani/CBMC at their real sizes."),
             "design_ref": "DESIGN.md section 5 (%s)" % pid,
         },
-        "level_note": cfg.get("level_note", "Trusted: the assumed contracts of the curve/hash/serde dependencies (DESIGN.md section 3), the extraction rules E1-E11, Verus/Z3 and Kani/CBMC themselves. ") + (" Not decided here: " + "; ".join(cfg["not_decided"]) if cfg.get("not_decided") else ""),
+        "level_note": cfg.get("level_note", "Trusted: the assumed contracts of the curve/hash/serde dependencies (DESIGN.md section 3), the extraction rules E0-E18, Verus/Z3 and Kani/CBMC themselves. ") + (" Not decided here: " + "; ".join(cfg["not_decided"]) if cfg.get("not_decided") else ""),
         "technique": cfg.get("technique", "contract-based deductive verification: Verus requires/ensures/invariants on mechanically extracted real functions"),
     })
 na = []
